@@ -294,6 +294,9 @@ def normalize_url(
         port = None
 
     # Normalizing the path
+    # NOTE: escaped dots are dots ("%2E%2E" is ".."), hence unquoting first
+    path = safely_unquote_path(path)
+
     if path:
         trailing_slash = False
         if path.endswith("/") and len(path) > 1:
@@ -336,9 +339,11 @@ def normalize_url(
 
         # TODO: what to do of empty query items vs. no valued
         # TODO: should be dedupe query items?
+        # NOTE: items are unescaped first, so that an irrelevant key is
+        # recognized however it is spelled
         qsl = [
             item
-            for item in safe_qsl_iter(query)
+            for item in safely_unquote_qsl(safe_qsl_iter(query))
             if not should_strip_query_item(
                 item,
                 normalize_amp=normalize_amp,
@@ -382,27 +387,25 @@ def normalize_url(
         path = path.rstrip("/")
 
     # Quoting
+    # NOTE: in quoted mode, escapes of characters that need none are dropped
+    # first, so that both modes describe the same url
     if user:
+        user = safely_unquote_auth_item(user)
+
         if quoted:
             user = safely_quote(user)
-        else:
-            user = safely_unquote_auth_item(user)
 
     if password:
+        password = safely_unquote_auth_item(password)
+
         if quoted:
             password = safely_quote(password)
-        else:
-            password = safely_unquote_auth_item(password)
 
     if quoted:
         path = safely_quote(path)
-    else:
-        path = safely_unquote_path(path)
 
     if quoted:
         qsl = safely_quote_qsl(qsl)
-    else:
-        qsl = safely_unquote_qsl(qsl)
 
     # NOTE: sorting comes last, else the order would depend on how the items
     # happened to be escaped
@@ -411,10 +414,10 @@ def normalize_url(
 
     query = safe_serialize_qsl(qsl)
 
+    fragment = safely_unquote_fragment(fragment)
+
     if quoted:
         fragment = safely_quote(fragment)
-    else:
-        fragment = safely_unquote_fragment(fragment)
 
     # Result
     netloc = unsplit_netloc(user, password, hostname, port)
